@@ -66,6 +66,20 @@ func genStructProg(id int, seed int64, nfields int) *Prog {
 			f := rng.Intn(nfields)
 			switch ftypes[f] {
 			case "int":
+				var others []int
+				for g2, ft := range ftypes {
+					if ft == "int" && g2 != f {
+						others = append(others, g2)
+					}
+				}
+				if len(others) > 0 && rng.Intn(3) == 0 {
+					// one field computed from ANOTHER field of the same instance (and from a field of an alias)
+					g2 := others[rng.Intn(len(others))]
+					line("%s.f%d = %s.f%d + %d", v, f, v, g2, 1+rng.Intn(3))
+					line("%s.f%d = %s.f%d - 1", v, g2, vars[rng.Intn(3)], f)
+					show(v, g2)
+					break
+				}
 				switch rng.Intn(3) {
 				case 0:
 					line("%s.f%d = %s", v, f, in("int"))
